@@ -41,6 +41,10 @@ let () =
       (* simulator's srv index -> address id: configuration order, then new addresses in order of appearance *)
       let srvtab = ref (List.mapi (fun i a -> (i, a)) initial) in
       let mon = ref (Some (mon_init (List.map zi initial) rot)) in
+      let tries = match field cfgw "tries" with Some n -> int_of_string n | None -> 3 in
+      let bmon = ref (Some (bmon_init (List.map zi initial) (zi tries))) in
+      let next_id = ref (match field cfgw "idseq" with Some n -> int_of_string n | None -> 1) in
+      let tok_label = Hashtbl.create 16 in
       let user_ids = Hashtbl.create 16 in
       let seen_ids = Hashtbl.create 16 in
       let pending_user = ref false in
@@ -48,6 +52,18 @@ let () =
       let probes = ref 0 and edits = ref 0 and edits_inflight = ref 0 and sends = ref 0 and maxfail = ref 0 in
       let live = ref 0 in
       let feed ob descr =
+        (match !bmon with
+         | None -> ()
+         | Some b ->
+           (match bmon_step b ob with
+            | Some b' -> bmon := Some b'
+            | None ->
+              add_fail "attempt-not-sent"
+                (Printf.sprintf "op [%s]: %s although only %d transmission(s) were made for it and the budget is %d server(s) x %d tries"
+                   !cur_op descr
+                   (match ob with ODone (l, _) -> List.length (List.filter (fun x -> x = l) b.b_txs) | _ -> 0)
+                   (int_of_nat b.b_nsrv) (iz b.b_tries));
+              bmon := None));
         match !mon with
         | None -> ()
         | Some m ->
@@ -70,9 +86,16 @@ let () =
              List.iter (fun a -> if not (List.exists (fun (_, b) -> b = a) !srvtab) then srvtab := !srvtab @ [(List.length !srvtab, a)]) ids;
              feed (OServers (List.map zi ids)) ("setservers " ^ csv)
            | _ -> ())
-        | "REQ" :: _ -> pending_user := true; incr sends; incr live
+        | "REQ" :: t :: _ ->
+          pending_user := true; incr sends; incr live;
+          (* query ids are handed out in order (idseq): this request gets the next one *)
+          Hashtbl.replace tok_label t !next_id; Hashtbl.replace user_ids !next_id (); incr next_id
         | "RET" :: _ -> pending_user := false
-        | "CB" :: _ -> if !live > 0 then decr live
+        | "CB" :: t :: rest ->
+          if !live > 0 then decr live;
+          (match Hashtbl.find_opt tok_label t, field rest "status" with
+           | Some l, Some st -> feed (ODone (nat_of_int l, zi (int_of_string st))) (Printf.sprintf "query %s ended with status %s" t st)
+           | _ -> ())
         | "SETSERVERS" :: rc :: _ -> if rc <> "rc=0" then add_fail "setservers-failed" l
         | "TX" :: _ ->
           incr n_tx;
@@ -81,7 +104,7 @@ let () =
              let id = int_of_string id in
              if not (Hashtbl.mem seen_ids id) then begin
                Hashtbl.replace seen_ids id ();
-               if !pending_user then (Hashtbl.replace user_ids id (); pending_user := false)
+               if not (Hashtbl.mem user_ids id) && id >= !next_id then next_id := id + 1   (* a probe copy took this id *)
              end;
              let probe = not (Hashtbl.mem user_ids id) in
              if probe then (incr probes; incr n_probe);
